@@ -203,6 +203,7 @@ Inductive outcome :=
 | OTuple                                                   (* this / that / an input: all its columns *)
 | OValue                                                   (* a `let` constant or parameter: substituted *)
 | OPassthrough                                             (* Ident without target id -> s-string: the name reaches SQL *)
+| ODropped                                                 (* the expression is removed by static evaluation before anything checks it *)
 | OErr (e : err).
 
 (* Two places where the code is expected to change shape soon (proposed repairs fixes/C10-F2-*.diff, C10-F3-*.diff).  The
@@ -210,8 +211,12 @@ Inductive outcome :=
    semantic/resolver/names.rs on every run (vplib/props/c10_std.py, fails closed on any other shape).
      cfg_that_rejected : lower_expr's ident arm also rejects the bare name `that` (C10-F2 repaired)
      cfg_parent_walk   : resolve_ident steps from the current module to its PARENT (drops the innermost module name) instead
-                         of dropping the outermost one with pop_front (C10-F3 repaired) *)
-Record cfg := mkCfg { cfg_that_rejected : bool; cfg_parent_walk : bool }.
+                         of dropping the outermost one with pop_front (C10-F3 repaired)
+     cfg_dead_case_checked : a module / relation name (or `that`) inside a `case` branch that static evaluation removes is
+                         checked before the branch is removed (C10-F7 repaired: static_eval.rs calls expect_value)
+     cfg_std_call_rejected : a call of an std operator without declared return type is not taken for a table where a relation is
+                         required (C10-F4 repaired: validate_expr_type) *)
+Record cfg := mkCfg { cfg_that_rejected : bool; cfg_parent_walk : bool; cfg_dead_case_checked : bool; cfg_std_call_rejected : bool }.
 
 (* [interp] = the reference is an interpolated item of an s-string (lower_interpolations): the one place where a
    relation variable may be spliced in by name *)
@@ -247,6 +252,21 @@ Definition lower_ref_in (c : cfg) (interp : bool) (sc : scope) (id : ident) : ou
   end.
 
 Definition lower_ref (c : cfg) (sc : scope) (id : ident) : outcome := lower_ref_in c false sc id.
+
+(* The reference as the value of a `case` branch that static evaluation removes (constant-false condition, or behind a
+   constant-true one).  The resolver visits every branch, so whatever IT rejects (unknown / ambiguous names, functions, types,
+   arguments) is rejected there too; what only lower_expr rejects -- a module, a relation variable, `default_db.x`, the bare
+   `that` -- is rejected only if static evaluation checks the branch before removing it (C10-F7). *)
+Definition checked_at_lowering (sc : scope) (id : ident) : bool :=
+  match resolve sc id with
+  | RBound (CRoot k) | RBound (CStd k) | RBound (CParam k) => match k with NModule | NTable => true | _ => false end
+  | RBound (CFrame true) => match s_that sc with Some _ => false | None => true end
+  | RInferred ITable => true
+  | _ => false
+  end.
+
+Definition lower_ref_dead (c : cfg) (sc : scope) (id : ident) : outcome :=
+  if negb (cfg_dead_case_checked c) && checked_at_lowering sc id then ODropped else lower_ref c sc id.
 
 (* ---- properties of a scope used by the theorems ---- *)
 
@@ -305,6 +325,18 @@ Fixpoint args_ok (ps : list pkind) (args : list akind) : option err :=
   match ps, args with
   | p :: ps', a :: args' => match arg_ok p a with Some e => Some e | None => args_ok ps' args' end
   | _, _ => None
+  end.
+
+(* What the resolver takes a source-level argument for.  A call of an std operator whose declaration spells no return type
+   (`math.abs 3`, `sum x`: the RqOperator has no type) was taken for a TABLE where a relation is expected --
+   validate_expr_type "infers a table type" for every untyped expression -- until validate_expr_type tests for it (C10-F4). *)
+Inductive sarg := SRel | SScalar | SFunc | SStdCall.
+Definition seen (c : cfg) (a : sarg) : akind :=
+  match a with
+  | SRel => ARel
+  | SScalar => AScalar
+  | SFunc => AFunc
+  | SStdCall => if cfg_std_call_rejected c then AScalar else ARel
   end.
 
 (* What a bare or qualified name is when it stands in a relation position (the relation-typed parameters of
